@@ -86,7 +86,6 @@ HasData(c, m, l) == \E s \in 1..NS : ~IsNullP(m, c[l][s])
 
 (* a setting fixes some dimensions (0 = not fixed); an index beyond the size stands for a
    coordinate value that does not occur in the dataset *)
-Settings == [Dims -> 0..4]
 AbsentS(s) == \E d \in Dims : s[d] > Sizes[d]
 Matching(s) == { l \in Locs : \A d \in Dims : s[d] = 0 \/ s[d] = l[d] }
 NoDataIn(c, m, s) == \A l \in Matching(s) : ~HasData(c, m, l)
